@@ -46,6 +46,7 @@ func init() {
 			job(pair("c17-ent-k5-cap1", sim.EntCfg("", 5, 1, fBNew|fBRem, oBasic)), pick(tier, 9, 14), 3),
 			job(pair("c17-ent-k6-cap2", sim.EntCfg("", 6, 2, fBNew, oBasic)), pick(tier, 8, 12), 2),
 			job(pair("c17-ent-k4-cap128-reset", sim.EntCfg("", 4, 128, fBNew|fBRem|fReset, oBasic)), pick(tier, 8, 12), 1),
+			job(pair("c17-boundary-64-entities", sim.BoundaryEntitiesCfg("", 62, 4, 128, fBNew|fBRem, oBasic)), pick(tier, 4, 5), 1),
 			job(pair("c17-rel-k4-components", sim.RelCfg("", 0, 4, 0, 2, fBld|fMove|fBNew, oBasic)), pick(tier, 6, 8), 2),
 			job(pair("c17-core-k3-components", sim.CoreCfg("", 3, 1, nil, fMove|fBNew|fBRem, oBasic)), pick(tier, 5, 7), 1),
 		}
